@@ -87,6 +87,12 @@ func vfE8DecodeStrict(raw []byte) ([]byte, string) {
 		if _, err := bb.Peek(1); err != nil {
 			return out, "ok"
 		}
+		// a member starts with 1f 8b 08; fewer bytes than that are a cut header only if they are a prefix of it
+		// (gzip.NewReader answers "unexpected EOF" for any short tail, garbage included)
+		head, _ := bb.Peek(3)
+		if !bytes.HasPrefix([]byte{0x1f, 0x8b, 0x08}, head) {
+			return out, "corrupt"
+		}
 		zr, err := gzip.NewReader(bb)
 		if err == nil {
 			zr.Multistream(false)
@@ -1122,9 +1128,63 @@ func vfE8RunCase(dir string, idx int, sc vfE8Script, strace bool) vfE8Result {
 	return out
 }
 
+// vfE8DecoderSelfTest pins the three answers of the strict decoder on crafted files (audit C29): two members cut at
+// every length, garbage behind them, a flipped checksum byte.
+func vfE8DecoderSelfTest() (cases int, bad []string) {
+	var zb bytes.Buffer
+	for _, pl := range []string{"m0|a\nm1|b\n", "m2|c\n"} {
+		zw := gzip.NewWriter(&zb)
+		zw.Write([]byte(pl))
+		zw.Close()
+	}
+	full := zb.Bytes()
+	first := 0 // length of the first member
+	for n := 1; n < len(full); n++ {
+		if p, st := vfE8DecodeStrict(full[:n]); st == "ok" && len(p) > 0 {
+			first = n
+			break
+		}
+	}
+	for n := 0; n <= len(full); n++ {
+		p, st := vfE8DecodeStrict(full[:n])
+		want, wantLen := "torn", 0
+		if n >= first {
+			wantLen = 10
+		}
+		if n == 0 || n == first || n == len(full) {
+			want = "ok"
+		}
+		if n == len(full) {
+			wantLen = 15
+		}
+		cases++
+		if st != want || len(p) != wantLen {
+			bad = append(bad, fmt.Sprintf("prefix %d of %d: %s/%d, want %s/%d", n, len(full), st, len(p), want, wantLen))
+		}
+	}
+	for _, tail := range []string{"x", "# closed\n", "\x00", "\x1f\x8b\x07"} {
+		cases++
+		if p, st := vfE8DecodeStrict(append(append([]byte{}, full...), tail...)); st != "corrupt" || len(p) != 15 {
+			bad = append(bad, fmt.Sprintf("garbage %q behind the last member: %s/%d, want corrupt/15", tail, st, len(p)))
+		}
+	}
+	flipped := append([]byte{}, full...)
+	flipped[first-8] ^= 0xff // CRC32 of the first member
+	cases++
+	if p, st := vfE8DecodeStrict(flipped); st != "corrupt" || len(p) != 0 {
+		bad = append(bad, fmt.Sprintf("flipped checksum: %s/%d, want corrupt/0", st, len(p)))
+	}
+	return
+}
+
 func TestVerifToFileCorr(t *testing.T) {
 	if os.Getenv("VF_E8_CASE") != "" {
 		t.Skip("parent only")
+	}
+	if n, bad := vfE8DecoderSelfTest(); len(bad) > 0 {
+		t.Fatalf("strict gzip decoder self-test: %v", bad)
+	} else {
+		fmt.Printf("HIST gz-decoder-selftest-cases %d\n", n)
 	}
 	dir := os.Getenv("VERIF_OUT")
 	if dir == "" {
